@@ -133,6 +133,15 @@ CHECKS = [
          note='Trusted: the rebuild operator and the C01 symmetry oracle / MCB oracle used to skip values that legitimately depend '
               'on the perceived ring set or fall in documented canonicalisation gaps (counted).',
          technique='model-based (stateful) property-based testing with an independent rebuild as reference model'),
+    dict(id='C15',
+         text='Reactions are generated with a known ground truth: reactant-side molecules plus a drawn list of edits (bond order '
+              'change / formed / cleaved, charge, radical, atom leaving / joining) give the product side, 0-2 reagents, empty '
+              'roles; molecules are permuted inside roles and both sides renumbered consistently. Canonical reaction string '
+              'invariance, SMILES read-back of roles and molecules (plain and mapped), every atom and bond of the condensed '
+              'graph against the ground truth, empty centre for identical sides and invariance of the condensed-graph string.',
+         note='Trusted: the ground truth is the generator\'s own edit list; molecule identity within roles uses canonical strings '
+              '(C01 gaps skipped) and only for valence-valid reactions.',
+         technique='property-based testing with constructed ground truth (reference model = the edit list) and metamorphic permutation/renumbering relations'),
     dict(id='C17',
          text='Generated molecules x drawn parameters (radii 1-6, length 2^4..2^12, active bits 1-4, bit pairs 0-5): linear hash sets '
               'against an independent simple-path enumerator with the multiplicity cap, Morgan sets against an independent iterated '
